@@ -26,13 +26,17 @@ vars == << N, M, phi, th, mat, init, Es, Hs, Eb, Hb, pc, t >>
 
 \* an axis with one cell and no tiling carries no information: its phase is fixed to 1
 PhaseChoices(n, m) == IF n = 1 /\ m = 1 THEN { One } ELSE Units
-Mats(n) == { [ i \in Idx(n) |-> 1 ] } \cup { [ i \in Idx(n) |-> IF i = k THEN 2 ELSE 1 ] : k \in Idx(n) }
-              \cup { [ i \in Idx(n) |-> 1 + ((i[2] + i[3] + i[4]) % 2) ] }
-Inits(n) == (IF Dense THEN { << "dense" >> } ELSE {}) \cup { << f, k >> : f \in {"E", "H"}, k \in Idx(n) }
-DenseVal(i, s) == << 1 + i[1] + 2 * i[2] + 3 * i[3] + i[4] + s, i[2] - i[1] + 2 * s - i[4] >>
+\* material families: uniform, checkerboard, one component of one cell doubled (every position; lattices of
+\* at most 3 cells only)
+Checker(i, n) == 1 + ((Coord(i, n, 1) + Coord(i, n, 2) + Coord(i, n, 3)) % 2)
+Mats(n) == { [ i \in 1..Size(n) |-> 1 ] } \cup { [ i \in 1..Size(n) |-> Checker(i, n) ] }
+              \cup (IF Cells(n) <= 3 THEN { [ i \in 1..Size(n) |-> IF i = k THEN 2 ELSE 1 ] : k \in 1..Size(n) } ELSE {})
+Inits(n) == (IF Dense THEN { << "dense", 0 >> } ELSE {}) \cup { << f, k >> : f \in {"E", "H"}, k \in 1..Size(n) }
+DenseVal(i, n, s) == << 1 + Comp(i, n) + 2 * Coord(i, n, 1) + 3 * Coord(i, n, 2) + Coord(i, n, 3) + s,
+                        Coord(i, n, 1) - Comp(i, n) + 2 * s - Coord(i, n, 3) >>
 Field0(n, ini, f) ==
-    [ i \in Idx(n) |-> IF ini[1] = "dense" THEN DenseVal(i, IF f = "E" THEN 0 ELSE 1)
-                       ELSE IF ini[1] = f /\ ini[2] = i THEN One ELSE << 0, 0 >> ]
+    [ i \in 1..Size(n) |-> IF ini[1] = "dense" THEN DenseVal(i, n, IF f = "E" THEN 0 ELSE 1)
+                           ELSE IF ini[1] = f /\ ini[2] = i THEN One ELSE << 0, 0 >> ]
 
 \* boundary phases as the implementation computes them
 PhSmall == IF Variant = "L_short" THEN << GPow(th[1], N[1] - 1), GPow(th[2], N[2] - 1), GPow(th[3], N[3] - 1) >>
@@ -70,19 +74,19 @@ Spec == Init /\ [][Next]_vars
 
 \* ---------- properties ----------
 TypeOK == /\ pc \in {"E", "H"} /\ t \in 0..MaxT
-          /\ DOMAIN Es = Idx(N) /\ DOMAIN Eb = Idx(NB) /\ DOMAIN Hs = Idx(N) /\ DOMAIN Hb = Idx(NB)
+          /\ Len(Es) = Size(N) /\ Len(Eb) = Size(NB) /\ Len(Hs) = Size(N) /\ Len(Hb) = Size(NB)
 \* C09
 TileInv == TileRel(Eb, Es, N, M, phi) /\ TileRel(Hb, Hs, N, M, phi)
 \* the big domain is itself Bloch-periodic with the small period (a consequence, stated separately)
 BigIsQuasiPeriodic ==
-    \A i \in Idx(NB) : \A a \in 1..3 :
-        (i[a + 1] + N[a] < NB[a]) => Eb[[ i EXCEPT ![a + 1] = @ + N[a] ]] = GMul(phi[a], Eb[i])
+    \A I \in 1..Size(NB) : \A a \in 1..3 :
+        (Coord(I, NB, a) + N[a] < NB[a]) => Eb[I + N[a] * Stride(NB, a)] = GMul(phi[a], Eb[I])
 \* anti-vacuity helper (must be violated): the fields do change
 Frozen == Es = Field0(N, init, "E") /\ Hs = Field0(N, init, "H")
 
 \* ---------- bounded instances (a .cfg cannot hold tuples: the cfgs substitute these) ----------
-ShapesQ  == { <<2,1,1>>, <<3,1,1>>, <<1,2,1>>, <<1,1,3>>, <<2,2,1>> }
-TilingsQ == { <<2,1,1>>, <<3,1,1>>, <<1,2,1>>, <<1,1,3>>, <<2,2,1>>, <<2,1,2>> }
+ShapesQ  == { <<2,1,1>>, <<3,1,1>> }
+TilingsQ == { <<2,1,1>>, <<3,1,1>> }
 ShapesT  == { <<2,1,1>>, <<3,1,1>>, <<1,2,1>>, <<1,3,1>>, <<1,1,2>>, <<1,1,3>>, <<2,2,1>>, <<3,2,1>>, <<2,1,3>>,
               <<1,2,2>>, <<2,2,2>> }
 TilingsT == { <<2,1,1>>, <<3,1,1>>, <<1,2,1>>, <<1,3,1>>, <<1,1,2>>, <<1,1,3>>, <<2,2,1>>, <<2,1,2>>, <<1,2,2>>,
